@@ -186,6 +186,28 @@ theorem VarsWF.covers {vs : List (String × Nat)} (h : VarsWF vs) (i : Nat) (hi 
   obtain ⟨⟨v, l⟩, hm, rfl⟩ := List.mem_map.mp this
   exact ⟨v, hm⟩
 
+/-- the pre-check of the file's own levels, and distinct names (`vars` is a dict), give `VarsWF` -/
+theorem VarsWF.of_perm {vs : List (String × Nat)} (hn : (vs.map (·.1)).Nodup)
+    (hp : levelsPermutation vs = true) : VarsWF vs := by
+  have hperm := (levelsPermutation_iff vs).mp hp
+  refine ⟨hn, hperm.nodup_iff.mpr List.nodup_range, ?_⟩
+  intro var i hm
+  have : i ∈ vs.map (·.2) := List.mem_map.mpr ⟨(var, i), hm, rfl⟩
+  exact List.mem_range.mp (hperm.mem_iff.mp this)
+
+theorem VarsWF.perm {vs : List (String × Nat)} (h : VarsWF vs) : levelsPermutation vs = true := by
+  rw [levelsPermutation_iff]
+  apply (List.perm_ext_iff_of_nodup h.levels List.nodup_range).mpr
+  intro l
+  rw [List.mem_range]
+  constructor
+  · intro hl
+    obtain ⟨⟨v, l'⟩, hm, rfl⟩ := List.mem_map.mp hl
+    exact h.bound v l' hm
+  · intro hl
+    obtain ⟨v, hv⟩ := h.covers l hl
+    exact List.mem_map.mpr ⟨(v, l), hv, rfl⟩
+
 /-- the tables while the file's variables are being declared at the file's levels: consistent,
 every level is an old one (`< k`) or a level of the file, the old levels are all there -/
 structure LVInv (k : Nat) (F : List (String × Nat)) (t : Tbl) : Prop where
